@@ -1,6 +1,7 @@
 (* C15 — bad attribute values are refused, never silently mis-encoded. *)
 From PyUbx Require Import Base Bytes PyFloat Types Strs Walk Consts Tables Msg.
 From PyUbx Require Import Codec_lemmas Bits_lemmas Field_lemmas Exn_lemmas C08_lemmas.
+From PyUbx Require Import Trace_lemmas Shape_lemmas Build_lemmas Len_lemmas Msg_rt WfDef.
 Open Scope Z_scope.
 
 (* construction from ANY keyword values (every pyval: ints of any size, floats incl. nan/inf, bytes/str of any
@@ -10,6 +11,43 @@ Theorem C15_no_foreign : forall cls id mode bf k e,
   construct cls id mode bf (KwAttrs k) = Raise e -> e = EUBXMessage \/ e = EUBXType \/ e = EOther.
 Proof. intros cls id mode bf k. exact (construct_exn cls id mode bf (KwAttrs k)). Qed.
 Print Assumptions C15_no_foreign.
+
+(* whatever values are supplied (any pyval under any name), a build that succeeds over a definition without C-type
+   members produced exactly as many bytes as the widths of the fields walked: no value can lengthen or shorten
+   the payload *)
+Theorem C15_build_length : forall cls id mode bf k bud ds s',
+  is_cfgval cls id mode = false -> Forall (leaves len_kind) ds ->
+  walk_list atttype readonly_names cfgdb storsize scalround cls id mode bf (Some k) bud ds []
+    {| w_off := O; w_pay := []; w_attrs := []; w_trace := [] |} = Ok s' ->
+  length (w_pay s') = w_off s' /\ w_off s' = widths (w_trace s').
+Proof. exact (build_length atttype readonly_names cfgdb storsize scalround). Qed.
+Print Assumptions C15_build_length.
+
+(* ... and the bytes at each field's own offset are the encoding of that field's own value (a function of its
+   kind, width and value alone): a value that does not fit can never alter the bytes of another field *)
+Theorem C15_field_bytes : forall cls id mode bf k bud ds s',
+  is_cfgval cls id mode = false -> Forall (leaves len_kind) ds ->
+  walk_list atttype readonly_names cfgdb storsize scalround cls id mode bf (Some k) bud ds []
+    {| w_off := O; w_pay := []; w_attrs := []; w_trace := [] |} = Ok s' ->
+  Forall (fun r => exists b, encode_of atttype r = Ok b /\ slice (w_pay s') (fr_off r) (fr_size r) = b) (w_trace s').
+Proof. exact (build_slices atttype readonly_names cfgdb storsize scalround). Qed.
+Print Assumptions C15_field_bytes.
+
+(* message level: for a fixed-size definition without C-type members, any keyword values whatsoever either raise
+   or give a payload of exactly the definition's size, and the length field says so *)
+Theorem C15_construct_length : forall cls id mode bf a m ds,
+  a <> [] ->
+  construct cls id mode bf (KwAttrs a) = Ok m ->
+  get_dict cls id mode (KwAttrs a) [] = Ok ds ->
+  forallb fixedb ds && forallb lenb ds = true -> is_cfgval cls id mode = false ->
+  exists p, m_payload m = Some p /\ length p = def_min ds /\ msg_length m = Z.of_nat (def_min ds).
+Proof. exact construct_length. Qed.
+Print Assumptions C15_construct_length.
+
+(* non-vacuity: most shipped definitions are fixed-size without C-type members *)
+Example C15_fixed_entries_many :
+  Nat.leb 250 (length (filter (fun me => forallb fixedb (snd (snd me)) && forallb lenb (snd (snd me))) all_entries)) = true.
+Proof. vm_compute. reflexivity. Qed.
 
 (* integers that do not fit are refused, for every width and signedness *)
 Theorem C15_int_refused : forall l w z, is_int_letter l = true -> (0 < w)%nat -> ~ in_range (l =? lI)%N w z ->
